@@ -29,6 +29,7 @@ fn main() {
     let seed = std::env::var("VERIF_SEED").ok().and_then(|s| s.parse().ok()).unwrap_or(0u64);
     let tier = Tier { thorough, seed };
     let code = match prop.as_str() {
+        "C01" => rig::props::c01::main(tier, replay),
         "C03" => rig::props::c03::main(tier, replay),
         "C04" => rig::props::c04::main(tier, replay),
         "C05" => rig::props::c05::main(tier, replay),
